@@ -75,6 +75,7 @@ TSnapRead == /\ Ev("SnapRead") /\ Line.id \in DOMAIN snaps
              /\ ToSet(Line.content) = SnapContent(Line.id)
              /\ UNCHANGED vars
 TSnapClose == Ev("SnapClose") /\ SnapClose(Line.id)
+TSnapCloseAgain == Ev("SnapCloseAgain") /\ SnapCloseAgain(Line.id)
 
 TOpenEnd == Ev("OpenEnd") /\ OpenEnd /\ ProjOK(Line.proj)
 TOpenFailed == Ev("OpenFailed") /\ phase = "failed" /\ UNCHANGED vars
@@ -84,7 +85,7 @@ TError == Ev("Error") /\ FALSE
 
 TraceNext == TReset \/ TOpenBegin \/ TOptionsWrite \/ TManifestCreate \/ TManifestAppend \/ TCurrentTmpWrite
              \/ TCurrentRename \/ TManifestRemove \/ TTableRemove \/ TTableAlloc \/ TTableCreate \/ TTableClose \/ TTableAbandon
-             \/ TWriterDone \/ TSnapAcquire \/ TSnapRead \/ TSnapClose \/ TOpenEnd \/ TOpenFailed \/ TProj \/ TCrash
+             \/ TWriterDone \/ TSnapAcquire \/ TSnapRead \/ TSnapClose \/ TSnapCloseAgain \/ TOpenEnd \/ TOpenFailed \/ TProj \/ TCrash
 TraceSpec == TraceInit /\ [][TraceNext]_tvars
 
 HighWater == TLCSet(1, IF l > TLCGet(1) THEN l ELSE TLCGet(1))
